@@ -440,7 +440,7 @@ func PrintSuggestionsForLsp(p parser.Parser) {
 			return
 		}
 
-		if targetT.IsIdentifierType() && unicode.IsUpper(rune(targetT.ToString()[0])) {
+		if targetT.IsIdentifierType() && targetT.ToString() != "" && unicode.IsUpper(rune(targetT.ToString()[0])) {
 			printAllClasses()
 		}
 	}
@@ -543,7 +543,8 @@ func calculateObjectClassAndIsStatic(targetT base.T) (string, bool) {
 
 	switch len(beforeCode) {
 	case 0:
-		isStaticTarget = unicode.IsUpper(rune(target[0]))
+		// the implicit receiver renders as the empty string
+		isStaticTarget = target != "" && unicode.IsUpper(rune(target[0]))
 	default:
 		isStaticTarget = unicode.IsUpper(rune(beforeCode[0]))
 	}
